@@ -5,6 +5,8 @@ Q, T = "quick", "thorough"
 
 def rapid_job(name, pkg, run, q, t, shards_t=16, **kw):
     j = {"name": name, "pkg": pkg, "run": "^(%s)$" % run, "checks": {Q: q, T: t}, "shards": {Q: 1, T: shards_t}}
+    if "shards" in kw:
+        j["shards"] = kw.pop("shards")
     j.update(kw)
     return j
 
@@ -245,5 +247,42 @@ CHECKS["C20"] = {
         rapid_job("parent-vending", "./verifh/c20", "TestParentTraits|TestVendingDispense|TestVendingConfigAndUnits", 10000, 40000),
         rapid_job("fan-mode", "./verifh/c20", "TestFanSpeedConsistency|TestModeRelativeSteps", 10000, 40000),
         rapid_job("el-meter-pub", "./verifh/c20", "TestEnterLeaveTotals|TestMeterTimes|TestPublicationVersions", 10000, 40000),
+    ],
+}
+
+
+def _c12_prebuild(workdir, repo, goenv, log):
+    """Discover the routers in the current tree and build the two protoc plugins from it."""
+    import subprocess, os, sys
+    sys.path.insert(0, os.path.dirname(os.path.abspath(__file__)))
+    import discover
+    gen = os.path.join(workdir, "gen", "zz_registry_gen_test.go")
+    n = discover.write_router_registry(repo, gen)
+    log("discovered %d routers" % n)
+    bindir = os.path.join(workdir, "plugins")
+    os.makedirs(bindir, exist_ok=True)
+    for name in ("protoc-gen-router", "protoc-gen-wrapper"):
+        p = subprocess.run(["go", "build", "-o", os.path.join(bindir, name), "./cmd/" + name], cwd=repo, env=goenv,
+                           stdout=subprocess.PIPE, stderr=subprocess.STDOUT, text=True)
+        if p.returncode != 0:
+            log("building %s failed:\n%s" % (name, p.stdout[-3000:]))
+            return False
+    return {os.path.join(repo, "verifh", "c12", "zz_registry_gen_test.go"): gen}
+
+
+CHECKS["C12"] = {
+    "prebuild": _c12_prebuild,
+    "rule": ("(1) every router discovered in pkg/trait (go source scan at check time) x every method of its service descriptor taken from the protobuf registry, each with rapid-generated requests "
+             "(name registered / unregistered / empty) and response scripts (0-5 messages, header, trailer, error status at the end, caller-side send failure) played by fake client connections, invoked "
+             "through the service description's own handlers; (2) rapid state machine on router.Router with scripted factory/fallback vs a map model incl. change callbacks; concurrent first Gets forced "
+             "into router.get.afterMiss/beforeInsert and by goroutines; (3) generator differential: routers and wrappers regenerated with the current protoc plugins from the in-binary descriptors "
+             "and compared by content with the checked-in files; (4) default-name interceptors on random requests of every request type. non-trivial = (router, method, script) with >=1 message and a "
+             "non-OK status or metadata; registry history with Add-over-existing and Remove-then-Get with a factory; distinct by case description"),
+    "assumptions": ["fake connections stand in for real clients (the router only sees grpc.ClientConnInterface)", "generated file names are not compared, only contents per package"],
+    "jobs": [
+        rapid_job("sweep", "./verifh/c12", "TestAllRoutersSweep", 15, 80, shards={"quick": 4, "thorough": 16}, env_plugins=True),
+        rapid_job("random", "./verifh/c12", "TestAllRoutersRandom|TestDefaultName", 15000, 60000),
+        rapid_job("registry", "./verifh/c12", "TestRouterRegistry|TestRouterConcurrentFirstGet", 15000, 60000),
+        enum_job("generator", "./verifh/c12", "TestGeneratedCodeIsCurrent", env_plugins=True),
     ],
 }
